@@ -221,7 +221,7 @@ def main(argv=None):
     rc = 0
     lines = []
     n_new = 0
-    rdir = os.path.join(env.VERIF, "replays", pid)
+    rdir = os.path.join(env.OUT, "replays", pid)
     os.makedirs(rdir, exist_ok=True)
     for mech, vs in sorted(by_mech.items()):
         if (pid, mech) in known:
@@ -232,7 +232,7 @@ def main(argv=None):
         rp = os.path.join(rdir, "%s-%s-s%d.json" % (mech.replace("/", "_").replace(":", "_"), tier, seed))
         json.dump({"property": pid, "mechanism": mech, "message": vs[0]["message"], "case": vs[0]["replay"],
                    "tier": tier, "seed": seed}, open(rp, "w"), indent=1)
-        lines.append("VIOLATION property=%s replay=%s" % (pid, os.path.relpath(rp, env.VERIF)))
+        lines.append("VIOLATION property=%s replay=%s" % (pid, os.path.relpath(rp, env.OUT)))
         lines.append("  mechanism=%s witnesses=%d first: %s" % (mech, col.viol_counts.get(mech, len(vs)), vs[0]["message"][:1500]))
         rc = 1
     wall = time.time() - t0
@@ -253,7 +253,8 @@ def main(argv=None):
     if col.maxima:
         print("  maxima: " + ", ".join("%s=%.3g" % (k, v) for k, v in sorted(col.maxima.items())))
     env.touch_cache()
-    env.prune_caches()
+    if env.OUT == env.VERIF:
+        env.prune_caches(keep=4)
     return rc
 
 
